@@ -38,7 +38,7 @@ class ConstGen:
         elif ty == USIZE:
             v = self.rng.choice(self.size_values)
         else:
-            v = self.rng.choice([0, 1, 2, 3, ty.max, ty.max - 1, ty.min, self.rng.randint(ty.min, ty.max), self.rng.randint(ty.min, ty.max)])
+            v = self.rng.choice([0, 1, 2, 3, ty.max, ty.max - 1, ty.min, ty.min + 1 if ty.signed else 4, -1 if ty.signed else 5, self.rng.randint(ty.min, ty.max)])
         self.ext[(party, ident)] = (ty, v)
         return "%s::%s" % (party, ident), v
 
@@ -188,7 +188,26 @@ def plan(ctx):
     tier, seed = ctx["tier"], ctx["seed"]
     n = 300 if tier == "quick" else 3000
     per = 10
-    return [{"seeds": [seed * 100000 + 5000000 + i + k for k in range(per)], "cap": 20.0 if tier == "quick" else 90.0} for i in range(0, n, per)]
+    items = [{"seeds": [seed * 100000 + 5000000 + i + k for k in range(per)], "cap": 20.0 if tier == "quick" else 90.0} for i in range(0, n, per)]
+    # const-expression programs: many constants of every type, deeper expressions biased to boundary values, returned as a tuple
+    m = 1200 if tier == "quick" else 12000
+    items += [{"kind": "constexpr", "seeds": [seed * 100000 + 6000000 + i + k for k in range(40)], "cap": 20.0} for i in range(0, m, 40)]
+    return items
+
+
+def constexpr_program(seed):
+    rng = random.Random(seed)
+    cg = ConstGen(rng, [1, 2, 3])
+    n = rng.randint(3, 7)
+    for _ in range(n):
+        ty = rng.choice([t for t in CONST_TYPES if not isinstance(t, TBool)] + [I8, I16, U8, I8])
+        name = "C%d" % len(cg.decls)
+        src, v = cg.expr(ty, 3, False)
+        cg.decls.append((name, ty, src, v))
+    vals = [Var(nm, t) for nm, t, s, v in cg.decls]
+    e = TupLit(vals) if len(vals) > 1 else vals[0]
+    prog = Program([FnDef("main", [("x", U8, False)], e.ty, Block([], e), pub=True)], [], [], [(nm, t, s) for nm, t, s, v in cg.decls])
+    return prog, cg
 
 
 def substituted_source(prog):
@@ -201,10 +220,13 @@ def substituted_source(prog):
         lang.SUBST = None
 
 
-def check_one(drv, seed, cap, st, out):
+def check_one(drv, seed, cap, st, out, kind=None):
     rng = random.Random(seed)
     size_values = rng.choice([[1, 2, 3], [1, 2, 3, 4], [1, 2]])
-    prog, cg = generate(seed, size_values)
+    if kind == "constexpr":
+        prog, cg = constexpr_program(seed)
+    else:
+        prog, cg = generate(seed, size_values)
     prog._const_values = [(n, t, v) for n, t, s, v in cg.decls]
     const_values = {}
     for n, t, s, v in cg.decls:
@@ -299,7 +321,7 @@ def work(item, drv):
     st = solve.Stats()
     out = {"item": item, "violations": [], "nonrepro": [], "programs": 0, "compiled": 0, "twins": 0, "error_trials": 0, "rejected": [], "samples": []}
     for s in item["seeds"]:
-        check_one(drv, s, item["cap"], st, out)
+        check_one(drv, s, item["cap"], st, out, item.get("kind"))
     out["stats"] = st.as_dict()
     return out
 
